@@ -22,7 +22,7 @@ def cfg_space(tier):
     if tier == "quick":
         vals, L, pats, pers, tols = "{-1, 0, 2}", 4, "1..2", "{<<1,1>>, <<1,2>>, <<2,1>>}", "{<<0,1>>, <<1,2>>, <<3,2>>, <<1,0>>}"
     else:
-        vals, L, pats, pers, tols = "{-2, -1, 0, 1, 4}", 5, "1..4", "{<<1,1>>, <<1,2>>, <<2,1>>, <<2,2>>, <<3,1>>, <<1,3>>}", "{<<0,1>>, <<1,2>>, <<1,1>>, <<3,1>>, <<1,0>>}"
+        vals, L, pats, pers, tols = "{-2, 0, 1, 4}", 5, "1..3", "{<<1,1>>, <<1,2>>, <<2,1>>, <<3,1>>}", "{<<0,1>>, <<1,2>>, <<3,1>>, <<1,0>>}"
     base = '''[type |-> "positive", startEp |-> 1, epochs |-> %d, N |-> 1, posB |-> 1, negB |-> 0,
        data |-> <<1>>, bases |-> <<>>, sched |-> FALSE, entryStop |-> FALSE, again |-> "no", perms |-> "id",
        cbs |-> CBS, vals |-> <<0>> \\o v, vars |-> <<0>> \\o VARS]''' % L
